@@ -37,6 +37,19 @@ def gen(rng, tier):
             cases.append((s[:cut] + bytes([rng.randrange(256)]) + s[cut:], "byte-insert"))
         else:
             cases.append((bytes(rng.choice([34, 40, 41, 38, 124, 94, 61, 59, 44, 36, 97, 49, 32, 0, 10, 128, 255, 95]) for _ in range(rng.randrange(0, 14))), "raw"))
+    # long and wide sentences: flat chains of many comparisons, many parenthesised groups, long
+    # group-by lists, moderate nesting (any counter or limit inside the parser meets them)
+    for cnt in ((300, 1001, 2500) if tier == "quick" else (300, 999, 1000, 1001, 1002, 2500, 10000)):
+        for op in (b" | ", b" & "):
+            cases.append((op.join(b'c%d="v%d"' % (i % 7, i) for i in range(cnt)), "long-chain"))
+        cases.append((b" & ".join(b'(a="%d" | b="%d")' % (i, i) for i in range(cnt // 2)), "long-chain"))
+        cases.append((b" | ".join(b'^ a="%d"' % i for i in range(cnt)), "long-chain"))
+        cases.append((b'a="1" ; ' + b", ".join(b"g%d" % i for i in range(cnt)), "long-chain"))
+        cases.append((b" | ".join(b"a=$%d" % (i + 1) for i in range(cnt)), "long-chain"))
+    for d in (40, 200):
+        cases.append((b"^" * d + b'a="1"', "deep"))
+        cases.append((b"(" * d + b'a="1"' + b")" * d, "deep"))
+        cases.append((b"(" * d + b'a="1"' + b' | b="2")' * d, "deep"))
     if tier == "thorough":
         # deep nesting (well below the stack limit of the recursive-descent parser)
         for d in (100, 1000, 5000):
